@@ -535,6 +535,7 @@ package server
 // LOCAL_PREF included (taking it off there would also take it off the stored route itself)
 //@   at-call path.RemoveLocalPref() requires !peer.isRouteServerClient()
 //@ func (*BgpServer).postFilterpath
+//@   tag C12 C03 C09
 //@   requires peer != nil
 //@   claims at-call at-return
 // from C03 "highest LOCAL_PREF": LOCAL_PREF is only taken off for a peer outside the local AS and outside the
